@@ -112,6 +112,8 @@ static int cmp_key(const void *a, const void *b, void *p)
     VRT_CHECK(cmp_budget-- > 0, "dlist.sort.runaway", "sort made more than 64*n+64 comparisons");
     VRT_COUNT("cb.sort-compare");
     /* only the sign is specified: the magnitude is unrelated to the key distance */
+    if ((x->id + y->id) % 3 == 0)                  /* ... and sits on the edges of the integer types */
+        return vrt_cmp_result((x->key > y->key) - (x->key < y->key), (unsigned)(x->id * 131 + y->id * 31));
     return ((x->key > y->key) - (x->key < y->key)) * (1 + (x->id * 131 + y->id * 31) % 997);
 }
 
